@@ -26,6 +26,7 @@ RULE = (
     "match captures, with/except/for targets, imports, decorators), stdlib statement soup and corpus files (every 5th quick / "
     "all thorough); inner loops over every scope, owned name, name use and statement line; non-trivial = >= 2 nested scopes "
     "and one of {global, nonlocal, comprehension, class in function, keyword-only parameter}; distinct by text hash"
+    "; plus a constructive family of deep class/def scope chains, and the holding scope of every continuation line of a multi-line simple statement"
 )
 ASSUMPTIONS = [
     "names are compared as written (no private-name mangling)",
